@@ -435,6 +435,24 @@ def conformance(rep, prop):
     return out_dirs
 
 
+def apalache_depmgr(rep):
+    """C03 / C18: the dependency manager's consistency as an inductive invariant, discharged by Apalache for any sequence of
+    add_dependency / notify_finish calls (spec/apalache/DepMgr.tla): base case and inductive step"""
+    wd = workdir("C03-apalache")
+    ok = 0
+    for args in (["--init=Init", "--inv=IndInv", "--length=0"], ["--init=IndInit", "--inv=IndInv", "--length=1"]):
+        r = subprocess.run(["timeout", "1500", "apalache-mc", "check", f"--out-dir={wd}", f"--run-dir={wd}/run"] + args + [os.path.join(SPEC, "apalache", "DepMgr.tla")],
+                           capture_output=True, text=True, cwd=wd)
+        out = r.stdout + r.stderr
+        if "The outcome is: NoError" in out:
+            ok += 1
+        elif "The outcome is: Error" in out:
+            rep.violation("spec:DepMgrInductive", f"Apalache: the inductive invariant of the dependency manager fails ({' '.join(args)})", dict(out=out[-3000:]))
+        else:
+            raise ToolError("apalache-mc failed:\n" + out[-2000:])
+    rep.coverage["apalache_inductive_obligations_discharged"] = ok
+
+
 def check(prop):
     rep = Report(prop, "model_checking")
     rep.assumptions = [
@@ -443,6 +461,8 @@ def check(prop):
         "TLC bounds: see coverage.model_runs; code schedules: see coverage.schedule_sets",
     ]
     model_check(rep, prop)
+    if prop == "C03":
+        apalache_depmgr(rep)
     conformance(rep, prop)
     if prop in ("C02", "C03", "C05"):
         n = replay_behaviours(rep, prop)
